@@ -61,6 +61,53 @@ PROPS = {
         open_statements=["C13_tolerant_accepts (two statements on one line, open blocks: complete statements kept)", "C13_smart_as_semicolon"],
         assumptions=["token lists come from the lexer model (C10); the parser never feeds back into the lexer"],
     ),
+    "C11": dict(
+        design_ref="DESIGN.md 5.11",
+        level_text="Coq theorems over the executable parser model, for ALL token lists ending in EOF, all modes, interceptors and registered operators (none on EOF): the linear fuel is never exhausted (termination), error value iff error list non-empty, statement lists never hold nil, every error range is the range of a token of the input (or of the repeated EOF), and an error-free result compiles in every configuration without dereferencing nil (over the printer regenerated from ast.go). Tied to the code by regenerated tables/printer and the parse and print correspondence suites (Go panics recovered and compared).",
+        level_note="Trusted: Coq kernel, translator xjs2v (tables, WriteTo bodies), extraction, harness/driver correspondence. Modelled not verified: parser control flow and CodeWriter (differentially tested incl. typed-nil and panic behaviour); strconv.ParseInt/ParseFloat acceptance (go_int_ok/go_float_ok, exercised by number-shape cases); the lexing half of totality is C10.",
+        technique="Coq proof (termination measure + invariants by induction on fuel) + model/implementation correspondence",
+        suites=[dict(suite="parse", n_quick=3000, n_thorough=100000, what="sources x 4 modes: tree, EOF token, errors, error flag, final context"),
+                dict(suite="print", n_quick=1500, n_thorough=50000, what="trees x compiler configurations: code, map, panic",
+                     projection=[(r" v=\d+ names=.*$", ""), (r" nomap$", "")])],
+        oracle=False,
+        explanation="C11: parse_total, parse_error_iff, parse_lists_ok, parse_error_ranges, parse_clean_compiles.",
+        assumptions=["no plugin registers an operator on the end-of-input token (ops_sane): such a plugin makes the real parser loop forever",
+                     "input tokens come from the lexer (C10_total: every byte string tokenizes to a list ending in EOF)"],
+    ),
+    "C14": dict(
+        design_ref="DESIGN.md 5.14",
+        level_text="Partial by nature: a pure Coq model has no schedules. Proved: a write-set analysis regenerated from the source on every run shows no function assigns, aliases or mutates a package-level variable, no WriteTo/Precedence method assigns through its receiver, and Compile/Build/ToString/constructors never assign through the compiler, builder, tree or options they receive (theorems = the generated lists are empty); requesting a source map never changes code or panic behaviour (all trees, all configurations); the debug string of a statement is its compact compilation. Concurrency (16 goroutines, race detector) and shared-object interleavings are explored by the iso oracle/suite, not proved.",
+        level_note="Trusted: Coq kernel, translator xjs2v and in particular its syntactic effects analysis (sees assignments, ++/--, delete/clear/maps.Copy destinations and plain aliasing; not reflection/unsafe), extraction, harness/driver. The Go memory model argument 'no shared mutable state => no data race' is outside Coq.",
+        technique="Coq proof over the writer model + generated write-set lemmas + correspondence; goroutine exploration as search",
+        suites=[dict(suite="print", n_quick=1500, n_thorough=50000, what="trees x compiler configurations: code, map, panic")],
+        oracle=False,
+        explanation="C14: C14_no_global_writes, C14_printing_is_pure, C14_map_flag_neutral, C14_debug_string; schedules explored only.",
+        open_statements=["data-race freedom under goroutine interleavings (explored with -race, cannot be exhibited by a Gallina model)"],
+        assumptions=["effects analysis is syntactic (named in the trusted base)"],
+    ),
+    "C08": dict(
+        design_ref="DESIGN.md 5.8",
+        level_text="Writer-level clauses proved for every operation history on the CodeWriter model (CR-free text): the mapper always stands at the line/column of the end of the buffer, pending whitespace and comments included; a mapping is recorded at the position where the next text starts; segments are sorted by generated position. The segment-to-lexeme clause (each segment links the same token in source and output) is explored by the oracle with an independent Source Map decoder; encoding conformance is C09, token start positions are C10.",
+        level_note="Trusted: Coq kernel, translator xjs2v (WriteTo bodies), extraction, harness/driver correspondence (print and smap suites compare Code, Mappings and Names). Modelled not verified: CodeWriter and compiler.Compile post-processing.",
+        technique="Coq proof (invariant over writer operation histories) + model/implementation correspondence",
+        suites=[dict(suite="print", n_quick=1500, n_thorough=50000, what="trees x compiler configurations: code, mappings, names, panic"),
+                dict(suite="smap", n_quick=1000, n_thorough=50000, what="SourceMapper histories")],
+        oracle=False,
+        explanation="C08 (writer clauses): C08_writer_position, C08_mapping_at_token_start, C08_sorted.",
+        open_statements=["C08_segments_link (segment links identical lexemes through lexing of the output)", "C08_identifiers_named"],
+        assumptions=["line/column = (LF count, bytes since last LF); a CR inside written text is outside the theorem (the mapper counts CR as a line break, the lexer does not)"],
+    ),
+    "C06": dict(
+        design_ref="DESIGN.md 5.6",
+        level_text="Proved for all trees over the printer regenerated from ast.go and the writer model: the semicolon option is read only by the statement-terminator operation (output without semicolons = output with them of the same operations minus the terminators), and indentation options made of blanks change only leading whitespace of lines (through cleanEmptyLines). Same-tree and idempotence clauses are explored by the oracle (they need the lexer/printer round trip).",
+        level_note="Trusted: Coq kernel, translator xjs2v (WriteTo bodies), extraction, harness/driver correspondence (print suite over all option combinations). Modelled not verified: CodeWriter and cleanEmptyLines (strings.TrimSpace modelled on ASCII white space).",
+        technique="Coq proof (simulation of two writer runs; structural invariant of the generated printer) + model/implementation correspondence",
+        suites=[dict(suite="print", n_quick=2000, n_thorough=50000, what="trees x compiler configurations: code",
+                     projection=[(r" v=\d+ names=.*$", ""), (r" nomap$", "")])],
+        oracle=False,
+        explanation="C06 (layout clauses): C06_semi_only, C06_indent_only.",
+        open_statements=["C06_same_tree (pretty output re-parses to the compact tree)", "C06_idempotent"],
+    ),
 }
 
 NOT_CLAIMED = {}
